@@ -83,7 +83,13 @@ fn tool_pvp_corpus(games: u64, seed: u64) {
                 break;
             }
             for m in &legal {
-                let sh = shape(&san(&pos, m, &legal));
+                let label = san(&pos, m, &legal);
+                let mut sh = shape(&label);
+                // "B<rank><square>" also reads as a coordinate pair starting on the b-file:
+                // keep the cases apart where the bishop does NOT stand on the b-file
+                if sh.starts_with("Br") && m.from % 8 != 1 {
+                    sh.push_str("(not-b-file)");
+                }
                 let len = line.len() + 1;
                 if best.get(&sh).map(|b| b.len() > len).unwrap_or(true) {
                     let mut g = line.clone();
